@@ -154,21 +154,178 @@ def _propagate_tuples(fn):
                 env[t.id] = v
 
 
+
+# ---- deepening round: the plumbing around the WCS calls is made visible to the translator ------------------------------
+# (a) `a, b = P` for a function parameter P (each of a, b, P bound once): the statement is dropped and a, b are renamed
+#     P_0, P_1 — the targets declare those as parameters, so every regenerated definition has the SAME fixed parameter list
+#     and which component goes where is visible in its body.
+# (b) call-argument capture: before a top-level statement containing the k-th call of `self.pix2sky`,
+#     `self.wcs.all_pix2world`, `self.wcs.all_world2pix`, each positional argument that is READABLE (names, numbers,
+#     + - * /, unary minus, np.sin/cos/radians/degrees of readable; a tuple / list / [[..]] of readable; or a name currently
+#     bound to such a tuple) is bound to `cap_<callee>_<k>_<i>[_<j>]`.  An argument that is not readable (e.g. the result of
+#     a helper call) gets no capture, the output is then "never assigned" and the target falls back to the hand copy.
+# (c) `return [A[0][i], A[0][j]]` with A bound from `self.wcs.all_world2pix(...)` becomes `return (w2p_i, w2p_j)`.
+_CAPTURE = {'pix2sky': ('self',), 'all_pix2world': ('self', 'wcs'), 'all_world2pix': ('self', 'wcs')}
+_NPFUN = {'sin', 'cos', 'radians', 'degrees'}
+
+
+def _attr_chain(node):
+    out = []
+    while isinstance(node, _ast.Attribute):
+        out.append(node.attr)
+        node = node.value
+    if isinstance(node, _ast.Name):
+        out.append(node.id)
+        return tuple(reversed(out))
+    return None
+
+
+def _readable(e):
+    if isinstance(e, _ast.Name):
+        return True
+    if isinstance(e, _ast.Constant):
+        return isinstance(e.value, (int, float)) and not isinstance(e.value, bool)
+    if isinstance(e, _ast.BinOp) and isinstance(e.op, (_ast.Add, _ast.Sub, _ast.Mult, _ast.Div)):
+        return _readable(e.left) and _readable(e.right)
+    if isinstance(e, _ast.UnaryOp) and isinstance(e.op, (_ast.USub, _ast.UAdd)):
+        return _readable(e.operand)
+    if isinstance(e, _ast.Call) and not e.keywords and len(e.args) == 1:
+        ch = _attr_chain(e.func)
+        return ch is not None and len(ch) == 2 and ch[0] in ('np', 'math', 'numpy') and ch[1] in _NPFUN and _readable(e.args[0])
+    return False
+
+
+def _names_in(e):
+    return {n.id for n in _ast.walk(e) if isinstance(n, _ast.Name)}
+
+
+def _unpack_params(fn):
+    params = [a.arg for a in fn.args.args if a.arg != 'self']
+    count = {}
+    for node in _ast.walk(fn):
+        if isinstance(node, _ast.Name) and isinstance(node.ctx, _ast.Store):
+            count[node.id] = count.get(node.id, 0) + 1
+    ren = {}
+    keep = []
+    for st in fn.body:
+        if (isinstance(st, _ast.Assign) and len(st.targets) == 1 and isinstance(st.targets[0], _ast.Tuple)
+                and isinstance(st.value, _ast.Name) and st.value.id in params and count.get(st.value.id, 0) == 0
+                and all(isinstance(t, _ast.Name) and count.get(t.id) == 1 for t in st.targets[0].elts)):
+            for i, t in enumerate(st.targets[0].elts):
+                ren[t.id] = '%s_%d' % (st.value.id, i)
+            continue
+        keep.append(st)
+    if ren:
+        fn.body = keep
+        sub = _Subst(ren)
+        fn.body = [sub.visit(b) for b in fn.body]
+    return bool(ren)
+
+
+def _capture_calls(fn):
+    env = {}          # name -> Tuple currently bound (straight-line, top level only)
+    counter = {}
+    out = []
+    w2p_names = set()
+    for st in fn.body:
+        simple = isinstance(st, (_ast.Assign, _ast.Return, _ast.Expr, _ast.AugAssign))
+        if not simple:
+            env.clear()
+            out.append(st)
+            continue
+        calls = [n for n in _ast.walk(st) if isinstance(n, _ast.Call) and isinstance(n.func, _ast.Attribute)
+                 and n.func.attr in _CAPTURE and _attr_chain(n.func) == _CAPTURE[n.func.attr] + (n.func.attr,)]
+        calls.sort(key=lambda n: (n.lineno, n.col_offset))
+        for c in calls:
+            name = c.func.attr
+            counter[name] = counter.get(name, 0) + 1
+            k = counter[name]
+            for i, a in enumerate(c.args):
+                if isinstance(a, _ast.Name) and a.id in env:
+                    a = env[a.id]
+                if isinstance(a, _ast.List) and len(a.elts) == 1 and isinstance(a.elts[0], (_ast.List, _ast.Tuple)):
+                    a = a.elts[0]
+                if isinstance(a, (_ast.Tuple, _ast.List)):
+                    if all(_readable(e) for e in a.elts):
+                        for j, e in enumerate(a.elts):
+                            out.append(_ast.Assign(targets=[_ast.Name(id='cap_%s_%d_%d_%d' % (name, k, i, j), ctx=_ast.Store())],
+                                                   value=_copy.deepcopy(e)))
+                elif _readable(a) and not isinstance(a, _ast.Name):
+                    out.append(_ast.Assign(targets=[_ast.Name(id='cap_%s_%d_%d' % (name, k, i), ctx=_ast.Store())],
+                                           value=_copy.deepcopy(a)))
+        if isinstance(st, _ast.Assign) and len(st.targets) == 1:
+            t = st.targets[0]
+            bound = {t.id} if isinstance(t, _ast.Name) else ({e.id for e in t.elts if isinstance(e, _ast.Name)}
+                                                              if isinstance(t, _ast.Tuple) else set())
+            for nm in list(env):
+                if nm in bound or (_names_in(env[nm]) & bound):
+                    del env[nm]
+            if isinstance(t, _ast.Name) and isinstance(st.value, _ast.Tuple) and not (_names_in(st.value) & {t.id}):
+                env[t.id] = st.value
+            if (isinstance(t, _ast.Name) and isinstance(st.value, _ast.Call) and isinstance(st.value.func, _ast.Attribute)
+                    and st.value.func.attr == 'all_world2pix'):
+                w2p_names.add(t.id)
+            elif isinstance(t, _ast.Name):
+                w2p_names.discard(t.id)
+        elif isinstance(st, _ast.AugAssign):
+            env.clear()
+        if isinstance(st, _ast.Return) and isinstance(st.value, (_ast.List, _ast.Tuple)) and w2p_names:
+            elts = []
+            for e in st.value.elts:
+                ok = (isinstance(e, _ast.Subscript) and isinstance(e.value, _ast.Subscript)
+                      and isinstance(e.value.value, _ast.Name) and e.value.value.id in w2p_names
+                      and isinstance(e.value.slice, _ast.Constant) and e.value.slice.value == 0
+                      and isinstance(e.slice, _ast.Constant) and e.slice.value in (0, 1))
+                if not ok:
+                    elts = None
+                    break
+                elts.append(_ast.Name(id='w2p_%d' % e.slice.value, ctx=_ast.Load()))
+            if elts is not None:
+                st = _ast.Return(value=_ast.Tuple(elts=elts, ctx=_ast.Load()))
+        out.append(st)
+    fn.body = out
+
+
+def _plumbing(cls):
+    helpers = {st.name for st in cls.body if isinstance(st, _ast.FunctionDef) and st.name.startswith('_')}
+    for st in cls.body:
+        if isinstance(st, _ast.FunctionDef) and st.name not in helpers:
+            try:
+                saved = _copy.deepcopy(st.body)
+                _unpack_params(st)
+                _capture_calls(st)
+            except Exception:
+                st.body = saved
+
+
 def _normalised(relpath):
     """path of the helper-inlined copy of <repo>/<relpath> (or relpath itself when there is nothing to inline)"""
     try:
         src = _os.path.join(_repo_root(), relpath)
         text = open(src).read()
-        tree = _ast.parse(text)
+        import warnings as _warnings
+        with _warnings.catch_warnings():
+            _warnings.simplefilter('ignore')
+            tree = _ast.parse(text)
         changed = False
         for node in tree.body:
             if isinstance(node, _ast.ClassDef):
                 changed = _inline_class(node) or changed
+                _plumbing(node)
+                changed = True
         if not changed:
             return relpath
+        for node in _ast.walk(tree):      # docstrings are not needed and their backslashes only produce warnings
+            if isinstance(node, (_ast.FunctionDef, _ast.ClassDef, _ast.Module)) and len(node.body) > 1 \
+                    and isinstance(node.body[0], _ast.Expr) and isinstance(node.body[0].value, _ast.Constant) \
+                    and isinstance(node.body[0].value.value, str):
+                node.body = node.body[1:]
         _ast.fix_missing_locations(tree)
         out = _ast.unparse(tree)
-        _ast.parse(out)
+        import warnings as _warnings
+        with _warnings.catch_warnings():
+            _warnings.simplefilter('ignore')
+            _ast.parse(out)
         d = _os.path.join(_tempfile.gettempdir(), 'verif-C16-normalised')
         _os.makedirs(d, exist_ok=True)
         path = _os.path.join(d, _hashlib.sha1((src + text + open(__file__).read()).encode()).hexdigest()[:16] + '_' + _os.path.basename(relpath))
@@ -197,6 +354,42 @@ def _fb(name, params, hand=None):
 _P4 = ['x', 'y', 'x_off', 'y_off']
 _S4 = ['ra', 'dec', 'ra2', 'dec2']
 _CALLS = {'gcd': ('gcdSep', 4), 'bear': ('bear', 4)}
+
+_PX = ['pixel_0', 'pixel_1']
+
+
+def _fbp(name, params):
+    if not params:
+        return f"def {name} {{α : Type}} [R α] : α := {_H}.{name}"
+    return _fb(name, params)
+
+
+_PLUMBING = [
+    # WCSHelper.pix2sky: which caller coordinate is handed to the WCS as FITS axis 1 / axis 2, and the `origin` argument
+    dict(file=_W, func='WCSHelper.pix2sky', mode='real', params={p: 'A' for p in _PX},
+         outputs=[('cap_all_pix2world_1_0_0', 'pix2skyP1'), ('cap_all_pix2world_1_0_1', 'pix2skyP2')],
+         fallback={'pix2skyP1': _fbp('pix2skyP1', _PX), 'pix2skyP2': _fbp('pix2skyP2', _PX)}, all_params=_PX,
+         fallback_imports=[_H]),
+    dict(file=_W, func='WCSHelper.pix2sky', mode='real', params={}, outputs=[('cap_all_pix2world_1_1', 'pix2skyOrigin')],
+         fallback={'pix2skyOrigin': _fbp('pix2skyOrigin', [])}, all_params=[], fallback_imports=[_H]),
+    # WCSHelper.sky2pix: which WCS pixel coordinate is returned first / second, and the `origin` argument
+    dict(file=_W, func='WCSHelper.sky2pix', mode='real', params={'w2p_0': 'A', 'w2p_1': 'A'},
+         returns=['sky2pixX', 'sky2pixY'],
+         fallback={'sky2pixX': _fbp('sky2pixX', ['w2p_0', 'w2p_1']), 'sky2pixY': _fbp('sky2pixY', ['w2p_0', 'w2p_1'])},
+         all_params=['w2p_0', 'w2p_1'], fallback_imports=[_H]),
+    dict(file=_W, func='WCSHelper.sky2pix', mode='real', params={}, outputs=[('cap_all_world2pix_1_1', 'sky2pixOrigin')],
+         fallback={'sky2pixOrigin': _fbp('sky2pixOrigin', [])}, all_params=[], fallback_imports=[_H]),
+    # the offset point handed to the second (and third) pix2sky call of pix2sky_vec / pix2sky_ellipse
+    dict(file=_W, func='WCSHelper.pix2sky_vec', mode='real', params={p: 'A' for p in _PX + ['r', 'theta']},
+         outputs=[('cap_pix2sky_2_0_0', 'p2sVecOffX'), ('cap_pix2sky_2_0_1', 'p2sVecOffY')],
+         fallback={n: _fbp(n, _PX + ['r', 'theta']) for n in ('p2sVecOffX', 'p2sVecOffY')},
+         all_params=_PX + ['r', 'theta'], fallback_imports=[_H]),
+    dict(file=_W, func='WCSHelper.pix2sky_ellipse', mode='real', params={p: 'A' for p in _PX + ['sx', 'sy', 'theta']},
+         outputs=[('cap_pix2sky_2_0_0', 'p2sEllOff1X'), ('cap_pix2sky_2_0_1', 'p2sEllOff1Y'),
+                  ('cap_pix2sky_3_0_0', 'p2sEllOff2X'), ('cap_pix2sky_3_0_1', 'p2sEllOff2Y')],
+         fallback={n: _fbp(n, _PX + ['sx', 'sy', 'theta']) for n in ('p2sEllOff1X', 'p2sEllOff1Y', 'p2sEllOff2X', 'p2sEllOff2Y')},
+         all_params=_PX + ['sx', 'sy', 'theta'], fallback_imports=[_H]),
+]
 
 TARGETS = [
     dict(file=_F, func='gcd', mode='real', params={p: 'A' for p in _A4},
@@ -230,4 +423,4 @@ TARGETS = [
          fallback={'p2sVecRa': _fb('p2sVecRa', ['ra'], 'idHand'), 'p2sVecDec': _fb('p2sVecDec', ['dec'], 'idHand'),
                    'p2sVecLen': _fb('p2sVecLen', _S4), 'p2sVecPa': _fb('p2sVecPa', _S4)},
          fallback_imports=[_H]),
-]
+] + _PLUMBING
